@@ -3,6 +3,7 @@ package main
 import (
 	"fmt"
 	"io/ioutil"
+	"math/rand"
 	"net/url"
 	"path/filepath"
 	"regexp"
@@ -156,6 +157,78 @@ func c13URLs(thorough bool) []string {
 	return out
 }
 
+
+// Layer B: members of the conservative grammar "https://" host [":" port] ["/" path] built from
+// their parts, and near-misses (one byte of a member replaced / inserted / removed).
+type c13Plain struct {
+	raw    string
+	member bool
+	host   string
+}
+
+func c13PlainCases(thorough bool) []c13Plain {
+	rng := rand.New(rand.NewSource(verifSeed() + 13))
+	hosts := []string{"example.com", "app.example.com", "evilexample.com", "example.com.evil.com", "example.com.", "a", "-", ".", "..", "a.", ".example.com",
+		"xn--exmple-cua.com", "1.2.3.4", "0x7f.1", "a-b.c-d.example.com", "corp.internal", "evilcorp.internal", "localhost", "example.comevil.com", "-example.com", "e.x.a.m.p.l.e"}
+	labelChars := "abcdefghijklmnopqrstuvwxyz0123456789-"
+	ports := []string{"", "", "", ":443", ":8443", ":0", ":65536", ":99999999999", ":007"}
+	paths := []string{"", "", "/", "/cb", "/cb/", "/a/b/../c", "/..", "/A~_-./Zz09", "//x", "/./cb", "/cb/...", "/a..b"}
+	hostile := "ABZ%@\\?#\t\n :/[]_~;,&=+!*'()\x00\x7f\xc3"
+	n := 500
+	if thorough {
+		n = 20000
+	}
+	var out []c13Plain
+	for i := 0; i < n; i++ {
+		h := hosts[rng.Intn(len(hosts))]
+		if rng.Intn(3) == 0 {
+			var sb strings.Builder
+			for l := 0; l <= rng.Intn(4); l++ {
+				if l > 0 {
+					sb.WriteByte('.')
+				}
+				for k := 0; k <= rng.Intn(6); k++ {
+					sb.WriteByte(labelChars[rng.Intn(len(labelChars))])
+				}
+			}
+			h = sb.String()
+		}
+		raw := "https://" + h + ports[rng.Intn(len(ports))] + paths[rng.Intn(len(paths))]
+		out = append(out, c13Plain{raw, true, h})
+		// near-misses of the same string
+		b := []byte(raw)
+		pos := rng.Intn(len(b))
+		c := hostile[rng.Intn(len(hostile))]
+		switch rng.Intn(3) {
+		case 0:
+			b[pos] = c
+		case 1:
+			b = append(b[:pos], append([]byte{c}, b[pos:]...)...)
+		default:
+			b = append(b[:pos], b[pos+1:]...)
+		}
+		out = append(out, c13Plain{string(b), false, ""})
+	}
+	return out
+}
+
+func lastLabelNumeric(h string) bool {
+	h = strings.TrimSuffix(h, ".")
+	l := h[strings.LastIndexByte(h, '.')+1:]
+	if l == "" {
+		return true
+	}
+	if strings.HasPrefix(l, "0x") {
+		return true
+	}
+	for _, c := range l {
+		if c < '0' || c > '9' {
+			return false
+		}
+	}
+	return true
+}
+
 func TestVerif_C13(t *testing.T) {
 	res := newVerifResult("redirect_uri strings from an adversarial URL grammar (scheme x userinfo x host x port x path x query, biased to one defect per URL; 2200 quick / 120000 thorough, plus a fixed list) x 8 client configurations (domains only, patterns only, both, none, leading-dot domain, two domains, empty domain, unanchored pattern); CanRedirectToURL, CorsOriginAllowed, generic CORS check and GET /idp/oauth2/authorize; non-trivial = url.Parse accepted the string with scheme https; distinct by (url, verdict vector)")
 	configs := []c13Config{
@@ -270,9 +343,34 @@ func TestVerif_C13(t *testing.T) {
 		}
 		idx = append(idx, fmt.Sprintf("%q verdicts=%s", raw, strings.Join(verdicts, "")))
 	}
+	// ---- layer B: the Gallina splitter vs net/url.Parse on the conservative grammar
+	var pcases, pidx []string
+	for _, pc := range c13PlainCases(verifThorough()) {
+		pu, perr := url.Parse(pc.raw)
+		ps := "None"
+		if perr == nil {
+			ps = fmt.Sprintf("Some {| scheme := %s; opaque := %s; uhost := %s; rawquery := %s; upath := %s; hostname := %s |}",
+				coqPacked([]byte(pu.Scheme)), coqBool(pu.Opaque != ""), coqPacked([]byte(pu.Host)), coqPacked([]byte(pu.RawQuery)), coqPacked([]byte(pu.Path)), coqPacked([]byte(pu.Hostname())))
+		}
+		pcases = append(pcases, fmt.Sprintf("(%s, %s, %s)", coqPacked([]byte(pc.raw)), coqBool(pc.member), ps))
+		pidx = append(pidx, fmt.Sprintf("%q member=%v", pc.raw, pc.member))
+		res.eval("plain|"+pc.raw, pc.member)
+		if pc.member {
+			res.bump("plain_grammar_member")
+			view := whatwg(pc.raw)
+			// the host a browser contacts is literally the host part (numeric last labels are
+			// re-written by the WHATWG IPv4 parser and are left out of this comparison)
+			if perr != nil || pu.Hostname() != pc.host || (!lastLabelNumeric(pc.host) && (!view.ok || view.host != pc.host)) {
+				res.hit(verifHit{Key: "C13:plain-grammar-host", Oracle: "on the conservative grammar net/url, the WHATWG view and the literal host part must coincide",
+					What: fmt.Sprintf("%q: host part %q, url.Parse hostname %q (err %v), browser host %q", pc.raw, pc.host, func() string { if pu != nil { return pu.Hostname() }; return "" }(), perr, view.host), Case: pc.raw})
+			}
+		} else {
+			res.bump("plain_grammar_near_miss")
+		}
+	}
 	var sb strings.Builder
 	sb.WriteString(coqCaseHeader)
-	sb.WriteString("From KM Require Import Base.Cases Model.Redirect.\nOpen Scope N_scope.\n")
+	sb.WriteString("From KM Require Import Base.Cases Model.Redirect Model.UrlSplit.\nOpen Scope N_scope.\n")
 	sb.WriteString("Definition configs : list (list bs * nat) := [")
 	for i, cf := range configs {
 		if i > 0 {
@@ -288,6 +386,10 @@ func TestVerif_C13(t *testing.T) {
 	sb.WriteString("Fixpoint zip3 (c : list (list bs * nat)) (r o : list bool) : list (list bs * nat * bool * bool) := match c, r, o with x :: c', a :: r', b :: o' => (x, a, b) :: zip3 c' r' o' | _, _, _ => [] end.\n")
 	sb.WriteString("Definition c13_bad (c : option parsed * list bool * list bool * list bool * bool) : bool :=\n  let '(p, res, obs, cors, generic) := c in\n  negb (forallb (fun x : list bs * nat * bool * bool => let '(cfg, re, o) := x in Bool.eqb (can_redirect (fst cfg) (snd cfg) re p) o) (zip3 configs res obs))\n  || negb (forallb (fun x : list bs * nat * bool * bool => let '(cfg, _, o) := x in Bool.eqb (cors_allowed (fst cfg) p) o) (zip3 configs res cors))\n  || negb (Bool.eqb (cors_allowed all_domains p) generic).\n")
 	sb.WriteString("Definition cases : list (option parsed * list bool * list bool * list bool * bool) := [\n " + strings.Join(cases, ";\n ") + "].\n")
+	sb.WriteString("Definition pcases : list (bs * bool * option parsed) := [\n " + strings.Join(pcases, ";\n ") + "].\n")
+	sb.WriteString("Definition c13_split_mismatches := Eval vm_compute in mismatches split_bad pcases.\nPrint c13_split_mismatches.\n")
+	sb.WriteString("Definition c13_split_accepted := Eval vm_compute in length (filter (fun c : bs * bool * option parsed => match plain_split (fst (fst c)) with Some _ => true | None => false end) pcases).\nPrint c13_split_accepted.\n")
+	ioutil.WriteFile(filepath.Join(verifOut(), "CasesC13split.idx"), []byte(strings.Join(pidx, "\n")), 0644)
 	sb.WriteString("Definition c13_mismatches := Eval vm_compute in mismatches c13_bad cases.\nPrint c13_mismatches.\nDefinition c13_ncases := Eval vm_compute in length cases.\nPrint c13_ncases.\n")
 	if err := ioutil.WriteFile(filepath.Join(verifOut(), "CasesC13.v"), []byte(sb.String()), 0644); err != nil {
 		t.Fatal(err)
